@@ -120,8 +120,33 @@ Definition c04_boundary (s : snap) : issues :=
   ++ spec_if (sp_tips_scaled s - sp_tips s * P <=? 1000000) "tips escrow pool holds less than the credited rewards"
   ++ spec_if (sp_bridge s =? 0) "bridge account holds tokens at a block boundary".
 
-Definition c04_step (_ : snap) (s : hstep) : issues :=
-  if (st_op s =? "EndBlock")%string && (st_result s =? 0) then c04_boundary (st_after s) else [].
+(* result 3 = a WithdrawTip was refused with "insufficient funds": the selector had whole-unit credit
+   (otherwise the message fails earlier) and the escrow pool could not pay it *)
+Definition c04_step (before : snap) (s : hstep) : issues :=
+  (if (st_op s =? "EndBlock")%string && (st_result s =? 0) then c04_boundary (st_after s) else [])
+  ++ spec_if (negb (st_result s =? 3)) "a withdrawal of credited rewards failed for lack of funds in the tips escrow pool"
+  (* a tip moves amount - 2 % into the oracle account and books it on the query *)
+  ++ (if (st_op s =? "Tip")%string && (st_result s =? 0) then
+        match st_params s with
+        | [a] => spec_if ((sp_oracle (st_after s) - sp_oracle before =? a - Z.quot (a * 2) 100)
+                          && (sp_oracle_owed (st_after s) - sp_oracle_owed before =? a - Z.quot (a * 2) 100))
+                         "a tip did not add amount minus the 2 % burn to the oracle account and to the query's unpaid tip"
+        | _ => []
+        end
+      else [])
+  (* the end blocker only moves coins oracle -> tips pool and reward pool -> tips pool *)
+  ++ (if (st_op s =? "EndBlock")%string && (st_result s =? 0) then
+        spec_if ((sp_oracle (st_after s) + sp_tips (st_after s) + sp_tbr (st_after s) =? sp_oracle before + sp_tips before + sp_tbr before)
+                 && (sp_oracle (st_after s) <=? sp_oracle before) && (sp_tbr (st_after s) <=? sp_tbr before))
+                "the end blocker did not move exactly the paid tips and the time based rewards into the tips escrow pool"
+      else [])
+  (* a tip withdrawal moves whole units from the tips pool into the staking pools *)
+  ++ (if (st_op s =? "WithdrawTip")%string && (st_result s =? 0) then
+        spec_if ((sp_tips before - sp_tips (st_after s) =?
+                  (sp_bonded (st_after s) + sp_notbonded (st_after s)) - (sp_bonded before + sp_notbonded before))
+                 && (sp_tips (st_after s) <? sp_tips before))
+                "a tip withdrawal did not move the withdrawn amount from the tips escrow pool into the staking pools"
+      else []).
 
 Definition c04_hist_check (c : hist_case) : issues :=
   let 'Hist init steps := c in walk c04_step init steps.
